@@ -21,7 +21,11 @@ def main():
     out = {"import_ok": True, "modules": [], "errors": []}
     try:
         pkg = importlib.import_module(q["package"])
-        for m in pkgutil.walk_packages(pkg.__path__, pkg.__name__ + "."):
+        def onerr(name):
+            e = sys.exc_info()[1]
+            out["import_ok"] = False
+            out["errors"].append(f"{name}: {type(e).__name__}: {e}")
+        for m in pkgutil.walk_packages(pkg.__path__, pkg.__name__ + ".", onerror=onerr):
             try:
                 importlib.import_module(m.name)
                 out["modules"].append(m.name)
